@@ -176,7 +176,7 @@ class Exec:
         return yp.query(kind, [term]), pargs, held
 
     def observe(self, pargs):
-        return TM.canon([TM.observe(a, {}) for a in pargs])
+        return TM.observe_canon(pargs)
 
     def readback(self):
         for name, ar in KEYS:
